@@ -33,9 +33,8 @@ def run(tier, seed, replay):
 
     # (1) design, exhaustive, constants read from the compiled code
     design = dict(W=W, D=D, Reqs='{"r1","r2"}', Procs='{"p1"}' if not big else '{"p1","p2"}',
-                  Skews="{-31,-30,0,30,31}" if not big else "{-31,-30,-29,0,29,30,31}",
-                  Deltas="{1,2,%d,%d,%d,%d}" % (3 * D, W - 3, W, W + 3) if not big else
-                         "{1,2,3,%d,%d,%d,%d,%d,%d}" % (3 * D - 3, 3 * D, 3 * D + 3, W - 3, W, W + 3),
+                  Skews="{-31,-30,0,30,31}",
+                  Deltas="{1,2,%d,%d,%d,%d}" % (3 * D, W - 3, W, W + 3),
                   MaxAdv=3, MaxPres=4 if not big else 4, Kinds='{"good","forged"}', EMIT="")
     r = vlib.tlc(SPEC, "MCTcpReplay", "MCTcpReplay.cfg", design, workers=16, timeout=3000 if big else 600, edges=False,
                  heap="24g" if big else "8g")
